@@ -1014,5 +1014,9 @@ func generate(seed int64, n int) []*Case {
 	for i := 0; i < n/2; i++ {
 		res = append(res, profCase(r, n+n*5/2+1000+2*n+i))
 	}
+	// modelled stream 5: float -> int64 conversion of start / end / step on Loki query_range (coq/model/ReadConv.v), n/4 cases
+	for i := 0; i < n/4; i++ {
+		res = append(res, convCase(r, n+n*5/2+1000+3*n+i))
+	}
 	return res
 }
